@@ -73,6 +73,10 @@ def plan(tier, seed):
         for mo, d in env.TZ_DAYS:
             for hh in (0, 1, 2, 3, 23):
                 cases.append({"spec": SPEC, "devs": [["vol", "volume_descriptor", DT_FIELD, f"2021{mo:02d}{d:02d}{hh:02d}300512"]], "tz": rule, "label": f"creation=2021{mo:02d}{d:02d}{hh:02d}300512 under TZ={rule}"})
+    # every (second, hundredth) pair of the creation time (two fields whose combination goes through one number)
+    for ss in range(60):
+        for cs in range(100) if tier == "thorough" or ss % 2 == 0 or ss in (1, 33, 59) else (0, 1, 37, 38, 50, 99):
+            cases.append({"spec": SPEC, "devs": [["vol", "volume_descriptor", DT_FIELD, f"202107010630{ss:02d}{cs:02d}"]], "seam": True, "label": f"creation=202107010630{ss:02d}{cs:02d}"})
     for n in range(0, 13):
         sp = {**SPEC, "vol": {"n_fp": n}}
         cases.append({"spec": sp, "devs": [], "label": f"file pointers={n}"})
@@ -83,7 +87,45 @@ def plan(tier, seed):
     return cases
 
 
+_seam = {}
+
+
+def execute_seam(case):
+    """the volume directory alone through ceos_alos2.volume_directory.open_volume_directory (what open_alos2 calls for it)"""
+    import datetime as dt
+
+    import fsspec
+
+    env.import_lib()
+    from ceos_alos2.volume_directory import open_volume_directory
+
+    spec = treecheck.spec_from_case(case)
+    files, _ = synth.build(spec) if "files" not in _seam else (None, None)
+    if files is not None:
+        _seam["files"], _seam["name"] = files, synth.file_names(spec)["vol"]
+    vol = bytearray(_seam["files"][_seam["name"]])
+    lay = synth.layout("vol.volume_descriptor")
+    f = next(x for x in lay.fields if x["name"] == DT_FIELD)
+    ts = case["devs"][0][3]
+    vol[f["off"] : f["off"] + f["w"]] = ts.ljust(f["w"]).encode()
+
+    class M(dict):
+        root = "x"
+
+    attrs = open_volume_directory(M({_seam["name"]: bytes(vol)}), _seam["name"]).attrs
+    got = attrs.get("creation_datetime")
+    want = dt.datetime.strptime(ts[:14], "%Y%m%d%H%M%S") + dt.timedelta(milliseconds=10 * int(ts[14:16]))
+    try:
+        ok = dt.datetime.fromisoformat(got) == want
+    except Exception:
+        ok = False
+    fails = [] if ok else [{"sig": {"kind": "creation-datetime", "leaf": "/@creation_datetime"}, "detail": f"{case['label']}: creation_datetime reads {got!r}, the file says {want.isoformat()}", "case": case}]
+    return {"ok": ok, "failures": fails, "outcome": "ok" if ok else "creation-datetime", "nontrivial": True}
+
+
 def execute(case):
+    if case.get("seam"):
+        return execute_seam(case)
     spec = treecheck.spec_from_case(case)
     with env.timezone(case.get("tz")):
         out = treecheck.check_spec(spec, only=["/@"])
@@ -113,7 +155,7 @@ def run(res, tier, seed):
         "every text field of volume descriptor + text record x {blank, 1 char, full width, inner spaces, right-justified, punctuation,"
         " quotes, mixed case, padded}; 6 all-fields-at-once products; creation timestamp over years{2014,2016,2049} x days"
         " {0101,0228,0229,0301,1231} x h{00,23} x m{00,59} x s{00,59} x cs{00,01,99} (quick: every 7th); 0..12 file pointers with"
-        " the last pointer rewritten; creation times at hours 0-3 and 23 of eight daylight-saving switch-over days under four local time zones; the volume directory replaced in place (modification time kept / new) between two opens. Root attributes must be exactly the documented set with the reference values."
+        " the last pointer rewritten; creation times at hours 0-3 and 23 of eight daylight-saving switch-over days under four local time zones; every (second, hundredth) pair of the creation time [quick: all hundredths for even seconds] through volume_directory.open_volume_directory; the volume directory replaced in place (modification time kept / new) between two opens. Root attributes must be exactly the documented set with the reference values."
     )
     res.assumptions = ["printable ASCII contents only (the format's character class)"]
     core.run_cases(res, __name__, plan(tier, seed))
